@@ -11,7 +11,9 @@ Case formats (JSON-able, sufficient for `replay`):
   lookup:  {"fn": "lookup", "L": 30, "circ": bool, "genes": [[s, e, strand], ...],
             "q": [s, e], "ov": bool}
            genes are listed in the order they are added; s >= e denotes an origin-spanning
-           location [s:L)+[0:e) (same convention for the query q).
+           location [s:L)+[0:e) (same convention for the query q).  A gene may carry a 4th element,
+           its exons [[s1, e1], [s2, e2], ...] in the order they are met walking along the record
+           from s to e (multi-exon genes; the bases between exons do not belong to the gene).
   build:   {"fn": "build", "L": 30, "circ": bool, "genes": [[s, e, strand], ...],
             "areas": [["p", [cs, ce], [s, e], product] | ["s", [s, e]], ...],
             "slots": [k, ...], "late": m (optional, default 0)}
@@ -38,7 +40,6 @@ from bounded._c05_geom import (
     is_contiguous,
     location_mask,
     location_parts,
-    make_gene,
     make_location,
     make_protocluster,
     make_record,
@@ -74,6 +75,55 @@ NO_EXC = "no-unexpected-exception"
 # ---------------------------------------------------------------------------------------------
 def _strand(start: int, end: int) -> int:
     return 1 if ((start + end) // STEP) % 2 == 0 else -1
+
+
+def _exons(gene: Sequence[Any], length: int) -> List[List[int]]:
+    """The exons of a gene in walking order (from its start, across the origin if it spans it)."""
+    if len(gene) > 3 and gene[3]:
+        return [list(exon) for exon in gene[3]]
+    if gene[0] < gene[1]:
+        return [[gene[0], gene[1]]]
+    return [[gene[0], length], [0, gene[1]]]
+
+
+def _gene_mask(gene: Sequence[Any], length: int) -> int:
+    mask = 0
+    for start, end in _exons(gene, length):
+        mask |= ((1 << (end - start)) - 1) << start
+    return mask
+
+
+def _gene_location(gene: Sequence[Any], length: int) -> Any:
+    """The real location of a gene: exons in biological order (reversed on the reverse strand)."""
+    from antismash.common.secmet.locations import CompoundLocation, FeatureLocation
+    parts = [FeatureLocation(start, end, gene[2]) for start, end in _exons(gene, length)]
+    if gene[2] == -1:
+        parts.reverse()
+    return parts[0] if len(parts) == 1 else CompoundLocation(parts)
+
+
+def _make_gene(name: str, gene: Sequence[Any], length: int, products: Sequence[str] = ()) -> Any:
+    from antismash.common.secmet.features import CDSFeature
+    from antismash.common.secmet.qualifiers.gene_functions import GeneFunction
+    feature = CDSFeature(_gene_location(gene, length), locus_tag=name, translation="A")
+    for product in products:
+        feature.gene_functions.add(GeneFunction.CORE, tool="bounded", description="core", product=product)
+    return feature
+
+
+def _multi_exon_genes() -> List[List[Any]]:
+    """Genes with an intron: over the origin with two exons before it or two after it (both
+    strands: on the reverse strand the exons are listed in descending order), one with the intron
+    at the origin itself, and two that do not span the origin."""
+    shapes = [
+        [15, 5, [[15, 20], [25, 30], [0, 5]]],        # two exons before the origin
+        [10, 10, [[10, 15], [20, 30], [0, 10]]],
+        [25, 15, [[25, 30], [0, 5], [10, 15]]],       # two exons after the origin
+        [20, 10, [[20, 25], [0, 10]]],                # the intron lies across the origin
+        [5, 20, [[5, 10], [15, 20]]],                 # plain two-exon genes
+        [0, 25, [[0, 5], [10, 15], [20, 25]]],
+    ]
+    return [[start, end, strand, exons] for start, end, exons in shapes for strand in (1, -1)]
 
 
 def _simple_genes(limit: int = LENGTH) -> List[List[int]]:
@@ -131,6 +181,21 @@ def _lookup_layouts(tier: str) -> List[Tuple[bool, List[List[int]]]]:
             add(True, combo)
             for cross in crossing:
                 add(True, list(combo) + [cross])
+    # multi-exon genes (an origin-spanning gene with several exons before the origin sorts by the
+    # smallest start / largest end of those exons, whatever the order they are listed in)
+    tiny = _simple_genes(limit=15)
+    for multi in _multi_exon_genes():
+        add(True, [multi])
+        for gene in simple:
+            add(True, [gene, multi])
+        for combo in itertools.combinations(tiny if quick else small, 2):
+            add(True, list(combo) + [multi])
+            if not quick:
+                add(True, [multi] + list(combo))
+        if not spans_origin(multi):
+            add(False, [multi])
+            for gene in simple:
+                add(False, [multi, gene])
     # two nested / overlapping origin-spanning genes
     for first, second in itertools.combinations(crossing, 2):
         add(True, [first, second])
@@ -261,6 +326,12 @@ def _build_layouts(tier: str) -> List[Tuple[bool, List[List[int]]]]:
         add(True, [cross, twin])
         for gene in tiny:
             add(True, [twin, gene])
+    for multi in _multi_exon_genes():
+        add(True, [multi])
+        for gene in tiny:
+            add(True, [gene, multi])
+        for combo in itertools.combinations(tiny[:4] if quick else tiny, 2):
+            add(True, list(combo) + [multi])
     return layouts
 
 
@@ -351,7 +422,7 @@ def _build_gene_record(length: int, circular: bool, genes: Sequence[Sequence[int
     record = make_record(length, circular)
     real = []
     for index, gene in enumerate(genes):
-        feature = make_gene(f"g{index}", gene[:2], gene[2], length,
+        feature = _make_gene(f"g{index}", gene, length,
                             _annotation(gene) if annotate else ())
         record.add_cds_feature(feature)
         real.append(feature)
@@ -363,7 +434,7 @@ def _expected_lookup(genes: Sequence[Sequence[int]], query: Sequence[int], overl
     qmask = arc_mask(query, length)
     out = []
     for index, gene in enumerate(genes):
-        gmask = arc_mask(gene, length)
+        gmask = _gene_mask(gene, length)
         if overlapping:
             if gmask & qmask:
                 out.append(index)
@@ -379,7 +450,8 @@ def _order_ok(result: Sequence[int], genes: Sequence[Sequence[int]], query: Sequ
     either by coordinate or walking along the query from its start - and the origin-spanning
     genes are in ascending order of their start among themselves (their position relative to the
     other genes is left free); or (b) all genes appear in the order in which they are met when
-    walking along the location from its start."""
+    walking along the location from its start; or (c) the genes appear part by part of the
+    location and, within a part, in the order of the record."""
     plain = [i for i in result if not spans_origin(genes[i])]
     wrapped = [i for i in result if spans_origin(genes[i])]
 
@@ -388,7 +460,7 @@ def _order_ok(result: Sequence[int], genes: Sequence[Sequence[int]], query: Sequ
         return all(keys[i] <= keys[i + 1] for i in range(len(keys) - 1))
 
     def size(gene: Sequence[int]) -> int:
-        return gene[1] - gene[0] if gene[0] < gene[1] else length - gene[0] + gene[1]
+        return bin(_gene_mask(gene, length)).count("1")
 
     if sorted_by(wrapped, lambda g: (g[0], size(g))):
         if sorted_by(plain, lambda g: (g[0], size(g))):
@@ -400,10 +472,20 @@ def _order_ok(result: Sequence[int], genes: Sequence[Sequence[int]], query: Sequ
     qmask = arc_mask(query, length)
 
     def met_at(gene: Sequence[int]) -> int:
-        inside = arc_mask(gene, length) & qmask
+        inside = _gene_mask(gene, length) & qmask
         offsets = [(base - query[0]) % length for base in range(length) if inside >> base & 1]
         return min(offsets) if offsets else length
-    return sorted_by(result, met_at)
+    if sorted_by(result, met_at):
+        return True
+    # fourth reading: part by part of the location, and within a part in the order of the record
+    # (by start, then length; a multi-exon gene counts with the start of its first exon)
+    parts = [arc_mask(list(part), length) for part in _parts(query, length)]
+
+    def by_part(gene: Sequence[int]) -> Tuple[int, int, int]:
+        mask = _gene_mask(gene, length)
+        first = next((n for n, part in enumerate(parts) if mask & part), len(parts))
+        return (first,) + _sort_key(gene, length)
+    return sorted_by(result, by_part)
 
 
 def _evaluate_lookup(record: Any, real: Sequence[Any], case: Dict[str, Any]) -> List[Tuple[str, bool, str]]:
@@ -460,7 +542,7 @@ def _run_history(case: Dict[str, Any]) -> Tuple[Any, List[Any], List[Any]]:
     """Executes the history on real objects; returns (record, genes, areas). Exceptions escape."""
     length, circular = case["L"], case["circ"]
     record = make_record(length, circular)
-    genes = [make_gene(f"g{i}", g[:2], g[2], length, _annotation(g)) for i, g in enumerate(case["genes"])]
+    genes = [_make_gene(f"g{i}", g, length, _annotation(g)) for i, g in enumerate(case["genes"])]
     areas = []
     for index, area in enumerate(case["areas"]):
         if area[0] == "p":
@@ -500,7 +582,7 @@ def _evaluate_build(case: Dict[str, Any]) -> Tuple[List[Tuple[str, bool, str]], 
     except Exception as err:  # pylint: disable=broad-except
         return [(NO_EXC, False, describe_exception(err))], None, True
     index_of = {id(gene): i for i, gene in enumerate(genes)}
-    gene_masks = [arc_mask(g, length) for g in case["genes"]]
+    gene_masks = [_gene_mask(g, length) for g in case["genes"]]
     results: List[Tuple[str, bool, str]] = []
     signature: List[Any] = []
     nontrivial = False
@@ -642,10 +724,26 @@ def _parts(arc: Sequence[int], length: int, strand: int = 1) -> List[Tuple[int, 
     return parts
 
 
-def _sort_key(arc: Sequence[int], length: int) -> Tuple[int, int]:
+def _sort_key(arc: Sequence[Any], length: int) -> Tuple[int, int]:
+    """Feature.__lt__ key: (start, length); for an origin-spanning feature the start is the
+    smallest start minus the largest end of the exons before the origin."""
+    exons = _exons(arc, length)
+    size = sum(end - start for start, end in exons)
     if arc[0] < arc[1]:
-        return (arc[0], arc[1] - arc[0])
-    return (arc[0] - length, length - arc[0] + arc[1])
+        return (min(start for start, _ in exons), size)
+    head = []
+    for position, exon in enumerate(exons):
+        if position and exon[0] < exons[position - 1][0]:
+            break
+        head.append(exon)
+    return (min(start for start, _ in head) - max(end for _, end in head), size)
+
+
+def _gene_parts(gene: Sequence[Any], length: int) -> List[Tuple[int, int]]:
+    parts = [(start, end) for start, end in _exons(gene, length)]
+    if len(gene) > 2 and gene[2] == -1:
+        parts.reverse()
+    return parts
 
 
 def _contains(outer: Sequence[Tuple[int, int]], inner: Sequence[Tuple[int, int]]) -> bool:
@@ -669,7 +767,7 @@ def pinned_lookup(genes: Sequence[Sequence[int]], query: Sequence[int], overlapp
         while position < len(order) and _sort_key(genes[order[position]], length) < key:
             position += 1
         order.insert(position, index)
-    gene_parts = [_parts(g, length, g[2] if len(g) > 2 else 1) for g in genes]
+    gene_parts = [_gene_parts(g, length) for g in genes]
 
     def single(part: Tuple[int, int], include_overlaps: bool) -> List[int]:
         key = (part[0], part[1] - part[0])
